@@ -47,6 +47,10 @@ func (r *streamReader) Receive(stream DRPCRemote_ReceiveStream) error {
 			var sender *actor.PID
 			if len(envelope.Senders) > 0 {
 				sender = envelope.Senders[msg.SenderIndex]
+				// an empty PID in the sender table means "sent without a sender".
+				if sender != nil && sender.Address == "" && sender.ID == "" {
+					sender = nil
+				}
 			}
 			r.remote.engine.SendLocal(target, payload, sender)
 		}
